@@ -387,6 +387,28 @@ def extract_reason_codes(repo):
     return codes
 
 
+def extract_varint_len(repo):
+    """`Varint::encoded_len`: a match on contiguous ranges starting at 0 with a final `_` arm."""
+    rel = "src/varint.rs"
+    src = strip_comments(read(repo, rel))
+    body = block_after(src, r"pub\(crate\)\s+fn\s+encoded_len\(&self\)\s*->\s*usize\s*\{", rel, "Varint::encoded_len")
+    mbody = block_after(body, r"match\s+self\.0\s*\{", rel, "encoded_len match")
+    arms = split_arms(mbody)
+    need(len(arms) >= 2 and arms[-1][0].strip() == "_", f"{rel}: encoded_len must end with a `_` arm")
+    out = []
+    expect_lo = 0
+    for pat, expr in arms[:-1]:
+        m = re.fullmatch(r"(0x[0-9A-Fa-f_]+|\d[\d_]*)\s*\.\.=\s*(0x[0-9A-Fa-f_]+|\d[\d_]*)", pat.strip())
+        need(m, f"{rel}: unrecognised encoded_len pattern '{pat}'")
+        lo, hi = int(m.group(1).replace("_", ""), 0), int(m.group(2).replace("_", ""), 0)
+        need(lo == expect_lo and hi >= lo, f"{rel}: encoded_len ranges are not contiguous at {pat}")
+        need(re.fullmatch(r"\d+", expr.strip()), f"{rel}: unrecognised encoded_len result '{expr}'")
+        out.append((hi, int(expr.strip())))
+        expect_lo = hi + 1
+    need(re.fullmatch(r"\d+", arms[-1][1].strip()), f"{rel}: unrecognised encoded_len default '{arms[-1][1]}'")
+    return out, int(arms[-1][1].strip())
+
+
 def lean_nat(n):
     return hex(n) if n > 255 else str(n)
 
@@ -423,6 +445,7 @@ def generate(repo):
     recv = extract_received(repo)
     codes = extract_reason_codes(repo)
 
+    vl_arms, vl_default = extract_varint_len(repo)
     kinds = props["kinds"]
     L = []
     A = L.append
@@ -434,6 +457,10 @@ def generate(repo):
              "WILL_TOPIC_CAPACITY", "DEFAULT_KEEPALIVE_S"]
     for k in order:
         A(f"def {k} : Nat := {lean_nat(consts[k])}")
+    A("")
+    A("/-- `Varint::encoded_len` (src/varint.rs). -/")
+    A("def varintLen (n : Nat) : Nat :=")
+    A("  " + " ".join(f"if n ≤ {lean_nat(hi)} then {v} else" for hi, v in vl_arms) + f" {vl_default}")
     A("")
     A("/-- `enum Property` / `enum PropertyIdentifier` (src/properties.rs). -/")
     A("inductive PropKind where")
